@@ -14,6 +14,7 @@ import (
 	"math/rand"
 	"os"
 	"os/exec"
+	"regexp"
 	"sort"
 	"strings"
 	"sync"
@@ -66,6 +67,71 @@ type Ctx struct {
 	deadline  time.Time
 	lineHashQ chan uint64
 	lastCase  *os.File
+	known          []knownPat
+	knownHits      map[string]int
+	unmatched      map[string]int
+	nUnmatchedKept int
+}
+
+// knownPat mirrors an entry of known_findings.json (id + match.verdict_regex / match.line_regex).
+type knownPat struct {
+	id      string
+	verdict *regexp.Regexp
+	line    *regexp.Regexp
+}
+
+func (c *Ctx) matchKnown(line, verdict string) string {
+	for _, k := range c.known {
+		if k.verdict == nil && k.line == nil {
+			continue
+		}
+		if k.verdict != nil && !k.verdict.MatchString(verdict) {
+			continue
+		}
+		if k.line != nil && !k.line.MatchString(line) {
+			continue
+		}
+		return k.id
+	}
+	return ""
+}
+
+func loadKnown(path, prop string) []knownPat {
+	var out []knownPat
+	if path == "" {
+		return out
+	}
+	data, err := os.ReadFile(path)
+	if err != nil {
+		return out
+	}
+	var doc struct {
+		Findings []struct {
+			ID       string `json:"id"`
+			Property string `json:"property"`
+			Match    struct {
+				Verdict string `json:"verdict_regex"`
+				Line    string `json:"line_regex"`
+			} `json:"match"`
+		} `json:"findings"`
+	}
+	if json.Unmarshal(data, &doc) != nil {
+		return out
+	}
+	for _, f := range doc.Findings {
+		if f.Property != prop {
+			continue
+		}
+		k := knownPat{id: f.ID}
+		if f.Match.Verdict != "" {
+			k.verdict, _ = regexp.Compile(f.Match.Verdict)
+		}
+		if f.Match.Line != "" {
+			k.line, _ = regexp.Compile(f.Match.Line)
+		}
+		out = append(out, k)
+	}
+	return out
 }
 
 // Exhausted reports whether the time budget of this shard is used up.
@@ -137,8 +203,19 @@ func (c *Ctx) collect(r io.Reader) {
 				key += " " + vf[1]
 			}
 			c.nfail[key]++
-			if len(c.failures) < 200 {
-				c.failures = append(c.failures, failure{line, v})
+			// Failures matching a known finding must never crowd out the others: they are counted
+			// per finding (a few examples kept), every other failure is kept per verdict key.
+			if id := c.matchKnown(line, v); id != "" {
+				c.knownHits[id]++
+				if c.knownHits[id] <= 20 {
+					c.failures = append(c.failures, failure{line, v})
+				}
+			} else {
+				c.unmatched[key]++
+				if c.unmatched[key] <= 40 && c.nUnmatchedKept < 600 {
+					c.nUnmatchedKept++
+					c.failures = append(c.failures, failure{line, v})
+				}
 			}
 		}
 	}
@@ -156,6 +233,8 @@ type summary struct {
 	Ops         map[string]int `json:"ops"`
 	FailKinds   map[string]int `json:"fail_kinds"`
 	Failures    []failure      `json:"failures"`
+	KnownHits   map[string]int `json:"known_hits"`
+	Unmatched   map[string]int `json:"unmatched_kinds"`
 	Samples     []string       `json:"samples"`
 	WallS       float64        `json:"wall_s"`
 }
@@ -175,6 +254,7 @@ func main() {
 		stale   = flag.Bool("stale", false, "model signature mismatch: widen generators")
 		listOps = flag.Bool("list", false, "list registered properties")
 		lastFile = flag.String("last", "", "file that always holds the case being executed (survives a fatal crash)")
+		knownF   = flag.String("known", "", "known_findings.json: failures matching a listed finding are counted apart")
 	)
 	flag.Parse()
 	if *listOps {
@@ -196,8 +276,9 @@ func main() {
 		Rng: rand.New(rand.NewSource(*seed*1000003 + int64(*shard))), Tier: *tier, Shard: *shard, Shards: *shards,
 		Stale: *stale, prop: p, pending: make(chan string, 1<<14), lineHashQ: make(chan uint64, 1<<14),
 		tags: map[string]int{}, ops: map[string]int{}, distinct: map[uint64]struct{}{}, nontriv: map[uint64]struct{}{},
-		nfail: map[string]int{},
+		nfail: map[string]int{}, knownHits: map[string]int{}, unmatched: map[string]int{},
 	}
+	c.known = loadKnown(*knownF, *propID)
 	c.Budget = *budget
 	if c.Budget == 0 {
 		if *tier == "thorough" {
@@ -284,7 +365,7 @@ func main() {
 	}
 	closeDriver(cmd, c)
 	s := summary{Prop: p.ID, Seed: *seed, Tier: *tier, Shard: *shard, Evaluations: c.evals, Distinct: len(c.distinct),
-		Nontrivial: len(c.nontriv), Tags: c.tags, Ops: c.ops, FailKinds: c.nfail, Failures: c.failures, Samples: c.samples,
+		Nontrivial: len(c.nontriv), Tags: c.tags, Ops: c.ops, FailKinds: c.nfail, Failures: c.failures, KnownHits: c.knownHits, Unmatched: c.unmatched, Samples: c.samples,
 		WallS: time.Since(t0).Seconds()}
 	if c.evals != c.seq {
 		s.FailKinds["driver-lost-lines"] = c.seq - c.evals
